@@ -448,10 +448,12 @@ def _build_part(b, script, worder, norder, rng, noise, mem_base):
             dests[0].reg_in = args[0]
         elif op == 'm':
             b.mems[n['p']].readport_nets.append(net)
-            b.mems[n['p']].num_read_ports += 1
+            if b.mems[n['p']].max_read_ports is not None:       # (as MemBlock itself counts)
+                b.mems[n['p']].num_read_ports += 1
         elif op == '@':
             b.mems[n['p']].writeport_nets.append(net)
-            b.mems[n['p']].num_write_ports += 1
+            if b.mems[n['p']].max_write_ports is not None:
+                b.mems[n['p']].num_write_ports += 1
     del keep
     return b
 
